@@ -80,42 +80,266 @@ def show(p):
     return " ".join(parts)
 
 
-def _returns(body, env, out, fn):
-    """Collect (Return node, polynomial) over all syntactic paths."""
-    env = dict(env)
-    for st in body:
-        if isinstance(st, ast.Expr) and isinstance(st.value, ast.Constant):
-            continue
-        if isinstance(st, ast.Pass):
-            continue
-        if isinstance(st, ast.Assign) and len(st.targets) == 1 and \
-                isinstance(st.targets[0], ast.Name):
-            env[st.targets[0].id] = poly(st.value, env)
-            continue
-        if isinstance(st, ast.AugAssign) and isinstance(st.target, ast.Name) and \
-                isinstance(st.op, (ast.Add, ast.Sub, ast.Mult)):
-            fake = ast.BinOp(left=ast.Name(id=st.target.id), op=st.op, right=st.value)
-            env[st.target.id] = poly(fake, env)
-            continue
-        if isinstance(st, ast.Return):
-            out.append((st, poly(st.value, env) if st.value is not None else None))
-            return True
-        if isinstance(st, ast.If):
-            t = _returns(st.body, env, out, fn)
-            f = _returns(st.orelse, env, out, fn)
-            if t and f:
-                return True
-            # names assigned in only one branch become unknown
-            for sub in st.body + st.orelse:
-                for n in ast.walk(sub):
-                    if isinstance(n, ast.Name) and isinstance(n.ctx, ast.Store):
-                        env[n.id] = None
-            continue
-        if isinstance(st, ast.Raise):
-            return True
-        raise AnalysisError("unrecognised statement %s in %s (%s:%s)" % (
-            type(st).__name__, fn.name, REL, st.lineno))
-    return False
+# ---- all-paths symbolic interpreter for the methods of Length ----------------
+#
+# Values are polynomials over the method's parameters and the symbol `value`
+# (contents of the cell at entry), the marker SELF, None, or OTHER (anything
+# else).  A state is (locals, cell polynomial, other attributes written).
+# Every syntactic path is followed (both branches of every `if`); calls of
+# module-level functions and of methods of the class are inlined (a parameter
+# bound to SELF aliases the object).  Unknown constructs are an AnalysisError.
+
+class _Self(object):
+    def __repr__(self):
+        return "<self>"
+
+
+SELF = _Self()
+
+
+class _Other(object):
+    def __repr__(self):
+        return "<other>"
+
+
+OTHER = _Other()
+
+
+class _Outcome(object):
+    __slots__ = ("kind", "value", "cell", "others", "line")
+
+    def __init__(self, kind, value, cell, others, line):
+        self.kind, self.value, self.cell, self.others, self.line = kind, value, cell, others, line
+
+
+class LenInterp(object):
+    MAX_DEPTH = 6
+
+    def __init__(self, tree, cls):
+        self.tree = tree
+        self.cls = cls
+        self.mod_funcs = {n.name: n for n in tree.body if isinstance(n, ast.FunctionDef)}
+        self.methods = {n.name: n for n in cls.body if isinstance(n, ast.FunctionDef)}
+
+    # state: (env dict, cell poly, frozenset other writes)
+    def ev(self, e, st, depth):
+        """-> list of (value, state)"""
+        env, cell, others = st
+        if isinstance(e, ast.Constant):
+            if isinstance(e.value, int) and not isinstance(e.value, bool):
+                return [(p_const(e.value), st)]
+            if e.value is None:
+                return [(None, st)]
+            return [(OTHER, st)]
+        if isinstance(e, ast.Name):
+            if e.id in env:
+                return [(env[e.id], st)]
+            return [(OTHER, st)]
+        if isinstance(e, ast.Attribute):
+            out = []
+            for base, st2 in self.ev(e.value, st, depth):
+                if base is SELF and e.attr == "value":
+                    out.append((st2[1], st2))
+                else:
+                    out.append((OTHER, st2))
+            return out
+        if isinstance(e, ast.UnaryOp) and isinstance(e.op, (ast.USub, ast.UAdd)):
+            out = []
+            for v, st2 in self.ev(e.operand, st, depth):
+                if isinstance(v, dict):
+                    out.append((p_mul(p_const(-1), v) if isinstance(e.op, ast.USub) else v, st2))
+                else:
+                    out.append((OTHER, st2))
+            return out
+        if isinstance(e, ast.BinOp) and isinstance(e.op, (ast.Add, ast.Sub, ast.Mult)):
+            out = []
+            for a, st2 in self.ev(e.left, st, depth):
+                for b, st3 in self.ev(e.right, st2, depth):
+                    if isinstance(a, dict) and isinstance(b, dict):
+                        v = p_add(a, b) if isinstance(e.op, ast.Add) else \
+                            p_add(a, b, -1) if isinstance(e.op, ast.Sub) else p_mul(a, b)
+                        out.append((v, st3))
+                    else:
+                        out.append((OTHER, st3))
+            return out
+        if isinstance(e, ast.Call):
+            return self.call(e, st, depth)
+        if isinstance(e, (ast.Compare, ast.BoolOp, ast.IfExp, ast.Tuple, ast.List, ast.Dict,
+                          ast.Subscript, ast.JoinedStr)):
+            if isinstance(e, ast.IfExp):
+                out = []
+                for _c, st2 in self.ev(e.test, st, depth):
+                    out += self.ev(e.body, st2, depth) + self.ev(e.orelse, st2, depth)
+                return out
+            # evaluate sub-expressions for their effects, value unknown
+            sts = [st]
+            for sub in ast.iter_child_nodes(e):
+                if isinstance(sub, ast.expr):
+                    sts = [s3 for s2 in sts for _v, s3 in self.ev(sub, s2, depth)]
+            return [(OTHER, s2) for s2 in sts]
+        raise AnalysisError("Length: unrecognised expression %s (%s:%s)" % (
+            pyfront.unparse(e)[:60], REL, getattr(e, "lineno", "?")))
+
+    def call(self, c, st, depth):
+        if depth > self.MAX_DEPTH:
+            raise AnalysisError("Length: call depth exceeded at line %s" % c.lineno)
+        fn = None
+        bound_self = None
+        if isinstance(c.func, ast.Name) and c.func.id in self.mod_funcs:
+            fn = self.mod_funcs[c.func.id]
+        elif isinstance(c.func, ast.Attribute):
+            bases = self.ev(c.func.value, st, depth)
+            if len(bases) == 1 and bases[0][0] is SELF and c.func.attr in self.methods:
+                fn = self.methods[c.func.attr]
+                bound_self = SELF
+        if fn is None:
+            name = pyfront.unparse(c.func)
+            if name in ("int", "super", "isinstance", "type", "len", "repr", "str"):
+                sts = [st]
+                for a in c.args:
+                    sts = [s3 for s2 in sts for _v, s3 in self.ev(a, s2, depth)]
+                return [(OTHER, s2) for s2 in sts]
+            raise AnalysisError("Length: call of %s cannot be resolved (%s:%s)" % (name, REL, c.lineno))
+        # evaluate arguments left to right
+        combos = [([], st)]
+        for a in c.args:
+            combos = [(vals + [v], s3) for vals, s2 in combos for v, s3 in self.ev(a, s2, depth)]
+        kwnames = [k.arg for k in c.keywords]
+        for k in c.keywords:
+            combos = [(vals + [v], s3) for vals, s2 in combos for v, s3 in self.ev(k.value, s2, depth)]
+        out = []
+        params = [a.arg for a in fn.args.args]
+        for vals, st2 in combos:
+            env2 = {}
+            pos = vals[:len(c.args)]
+            if bound_self is not None:
+                pos = [SELF] + pos
+            for pname, v in zip(params, pos):
+                env2[pname] = v
+            for kname, v in zip(kwnames, vals[len(c.args):]):
+                env2[kname] = v
+            # defaults
+            defaults = fn.args.defaults
+            for pname, d in zip(params[len(params) - len(defaults):], defaults):
+                if pname not in env2:
+                    dv = self.ev(d, ({}, st2[1], st2[2]), depth)
+                    env2[pname] = dv[0][0]
+            for pname in params:
+                env2.setdefault(pname, OTHER)
+            caller_env = st2[0]
+            for oc in self.run(fn.body, (env2, st2[1], st2[2]), depth + 1):
+                if oc.kind == "raise":
+                    raise AnalysisError("Length: helper %s can raise (line %s)" % (fn.name, oc.line))
+                out.append((oc.value, (caller_env, oc.cell, oc.others)))
+        return out
+
+    def run(self, body, st, depth=0):
+        """-> list of _Outcome (kind return/fall/raise)"""
+        states = [st]
+        outcomes = []
+        for stmt in body:
+            nxt = []
+            for s0 in states:
+                r = self.stmt(stmt, s0, depth)
+                for kind, payload in r:
+                    if kind == "next":
+                        nxt.append(payload)
+                    else:
+                        outcomes.append(payload)
+            states = nxt
+            if not states:
+                break
+        for env, cell, others in states:
+            outcomes.append(_Outcome("fall", None, cell, others, None))
+        return outcomes
+
+    def _store(self, target, v, st, stmt, depth):
+        env, cell, others = st
+        if isinstance(target, ast.Name):
+            env = dict(env)
+            env[target.id] = v
+            return [(env, cell, others)]
+        if isinstance(target, ast.Attribute):
+            out = []
+            for base, st2 in self.ev(target.value, st, depth):
+                env2, cell2, others2 = st2
+                if base is SELF:
+                    if target.attr == "value":
+                        if not isinstance(v, dict):
+                            v = {("<non-polynomial>",): 1}
+                        out.append((env2, v, others2))
+                    else:
+                        out.append((env2, cell2, others2 | {target.attr}))
+                else:
+                    out.append(st2)
+            return out
+        raise AnalysisError("Length: store to %s (%s:%s)" % (pyfront.unparse(target), REL, stmt.lineno))
+
+    def stmt(self, stmt, st, depth):
+        if isinstance(stmt, ast.Expr):
+            if isinstance(stmt.value, ast.Constant):
+                return [("next", st)]
+            return [("next", s2) for _v, s2 in self.ev(stmt.value, st, depth)]
+        if isinstance(stmt, ast.Pass):
+            return [("next", st)]
+        if isinstance(stmt, ast.Assign) and len(stmt.targets) == 1:
+            out = []
+            for v, s2 in self.ev(stmt.value, st, depth):
+                out += [("next", s3) for s3 in self._store(stmt.targets[0], v, s2, stmt, depth)]
+            return out
+        if isinstance(stmt, ast.AugAssign) and isinstance(stmt.op, (ast.Add, ast.Sub, ast.Mult)):
+            fake = ast.BinOp(left=stmt.target, op=stmt.op, right=stmt.value)
+            ast.copy_location(fake, stmt)
+            tgt = stmt.target
+            out = []
+            for v, s2 in self.ev(fake, st, depth):
+                out += [("next", s3) for s3 in self._store(tgt, v, s2, stmt, depth)]
+            return out
+        if isinstance(stmt, ast.Return):
+            if stmt.value is None:
+                return [("done", _Outcome("return", None, st[1], st[2], stmt.lineno))]
+            return [("done", _Outcome("return", v, s2[1], s2[2], stmt.lineno))
+                    for v, s2 in self.ev(stmt.value, st, depth)]
+        if isinstance(stmt, ast.Raise):
+            return [("done", _Outcome("raise", None, st[1], st[2], stmt.lineno))]
+        if isinstance(stmt, ast.If):
+            out = []
+            for _c, s2 in self.ev(stmt.test, st, depth):
+                for branch in (stmt.body, stmt.orelse):
+                    for oc in self.run(branch, s2, depth):
+                        if oc.kind == "fall":
+                            out.append(("next", (s2[0], oc.cell, oc.others)))
+                        else:
+                            out.append(("done", oc))
+            # locals assigned inside a branch are not tracked across the join
+            # (the cell and the attribute writes are)
+            return out
+        if isinstance(stmt, ast.With):
+            sts = [st]
+            for item in stmt.items:
+                sts = [s3 for s2 in sts for _v, s3 in self.ev(item.context_expr, s2, depth)]
+            out = []
+            for s2 in sts:
+                for oc in self.run(stmt.body, s2, depth):
+                    if oc.kind == "fall":
+                        out.append(("next", (s2[0], oc.cell, oc.others)))
+                    else:
+                        out.append(("done", oc))
+            return out
+        if isinstance(stmt, ast.Try):
+            out = []
+            # the body completes, or a handler runs from the state at entry
+            # (an approximation that keeps every path's final effect visible)
+            for branch in [stmt.body + stmt.orelse] + [h.body for h in stmt.handlers]:
+                for oc in self.run(branch + stmt.finalbody, st, depth):
+                    if oc.kind == "fall":
+                        out.append(("next", (st[0], oc.cell, oc.others)))
+                    else:
+                        out.append(("done", oc))
+            return out
+        if isinstance(stmt, (ast.Assert, ast.Global, ast.Nonlocal, ast.Import, ast.ImportFrom)):
+            return [("next", st)]
+        raise AnalysisError("unrecognised statement %s (%s:%s)" % (type(stmt).__name__, REL, stmt.lineno))
 
 
 def check():
@@ -126,6 +350,7 @@ def check():
     mem = pyfront.class_members(cls)
     findings = []
     obligations = []
+    it = LenInterp(tree, cls)
 
     def need(name):
         f = mem.get(name)
@@ -133,103 +358,71 @@ def check():
             raise AnalysisError("anchor vanished: Length.%s" % name)
         return f
 
+    def outcomes(fn, argpolys):
+        params = [a.arg for a in fn.args.args]
+        env = {params[0]: SELF}
+        for pname, v in zip(params[1:], argpolys):
+            env[pname] = v
+        for pname in params[1 + len(argpolys):]:
+            env[pname] = OTHER
+        if fn.args.vararg is not None:
+            env[fn.args.vararg.arg] = OTHER
+        return it.run(fn.body, (env, p_var("value"), frozenset()))
+
     # ---- LEN-ALGEBRA ---------------------------------------------------------
     f = need("_p_resolveConflict")
-    args = [a.arg for a in f.args.args]
-    if len(args) != 4:
+    if len(f.args.args) != 4:
         raise AnalysisError("Length._p_resolveConflict: expected (self, old, s1, s2)")
-    _self, old, s1, s2 = args
-    env = {old: p_var("old"), s1: p_var("s1"), s2: p_var("s2")}
     target = {("s1",): 1, ("s2",): 1, ("old",): -1}
-    rets = []
-    falls = not _returns(f.body, env, rets, f)
-    if falls:
-        findings.append(dict(
-            rule="LEN-ALGEBRA", function="Length._p_resolveConflict", file=REL,
-            line=f.lineno, construct="path without return",
-            detail="a path through _p_resolveConflict returns None instead "
-                   "of s1 + s2 - old", path=[]))
-    for r, p in rets:
-        obligations.append({"return": pyfront.unparse(r), "polynomial": show(p)})
-        if p != target:
+    for oc in outcomes(f, [p_var("old"), p_var("s1"), p_var("s2")]):
+        got = oc.value if oc.kind == "return" else None
+        obligations.append({"path ending at line": oc.line, "returns": show(got) if isinstance(got, dict) or got is None else repr(got)})
+        if oc.kind != "return" or got != target:
+            what = "path without return" if oc.kind == "fall" else \
+                "raises at line %s" % oc.line if oc.kind == "raise" else \
+                "return at line %s yields %s" % (oc.line, show(got) if isinstance(got, dict) else repr(got))
             findings.append(dict(
-                rule="LEN-ALGEBRA", function="Length._p_resolveConflict",
-                file=REL, line=r.lineno,
-                construct="return %s" % pyfront.unparse(r.value) if r.value else "return",
-                detail="returns %s, which is not the polynomial s1 + s2 - old "
-                       "(a resolution that loses or double-counts one "
-                       "transaction's change)" % show(p), path=[]))
-    # the same with s1 and s2 exchanged (order independence)
-    env2 = {old: p_var("old"), s1: p_var("s2"), s2: p_var("s1")}
-    rets2 = []
-    _returns(f.body, env2, rets2, f)
-    for (r, p), (_, q) in zip(rets, rets2):
-        obligations.append({"symmetry": pyfront.unparse(r), "swapped": show(q)})
-        if p != q and p == target:
+                rule="LEN-ALGEBRA", function="Length._p_resolveConflict", file=REL,
+                line=oc.line or f.lineno, construct=what,
+                detail="a path through _p_resolveConflict does not return the "
+                       "polynomial s1 + s2 - old (a resolution that loses or "
+                       "double-counts one transaction's change, or depends on "
+                       "the order of the two states)", path=[]))
+        if oc.cell != p_var("value") or oc.others:
             findings.append(dict(
-                rule="LEN-ALGEBRA", function="Length._p_resolveConflict",
-                file=REL, line=r.lineno,
-                construct="asymmetric return %s" % pyfront.unparse(r.value),
-                detail="result depends on the order of the two states", path=[]))
+                rule="LEN-ALGEBRA", function="Length._p_resolveConflict", file=REL,
+                line=oc.line or f.lineno, construct="conflict resolution modifies the object",
+                detail="_p_resolveConflict must be a pure function of the three states", path=[]))
 
     # ---- LEN-CELL --------------------------------------------------------------
-    def top_assign(fn, param):
-        """unconditional `self.value = <param>` at the top level of fn."""
-        for st in fn.body:
-            if isinstance(st, ast.Assign) and len(st.targets) == 1 and \
-                    pyfront.is_self_attr(st.targets[0], "value") and \
-                    isinstance(st.value, ast.Name) and st.value.id == param:
-                return True
-        return False
-
+    def cell_rule(name, args, want_cell, want_ret, text):
+        fn = need(name)
+        obligations.append({"cell": "Length.%s %s on every path" % (name, text)})
+        for oc in outcomes(fn, args):
+            bad = None
+            if oc.kind == "raise":
+                bad = "raises at line %s" % oc.line
+            elif oc.cell != want_cell:
+                bad = "leaves value = %s" % show(oc.cell)
+            elif oc.others:
+                bad = "writes %s" % ", ".join("self.%s" % a for a in sorted(oc.others))
+            elif want_ret is not None and not (oc.kind == "return" and oc.value == want_ret):
+                bad = "returns %s" % (show(oc.value) if isinstance(oc.value, dict) else repr(oc.value))
+            if bad:
+                findings.append(dict(
+                    rule="LEN-CELL", function="Length.%s" % name, file=REL, line=oc.line or fn.lineno,
+                    construct="%s: %s" % (name, bad),
+                    detail="Length.%s must %s on every path (a plain integer "
+                           "cell); this path %s" % (name, text, bad), path=[]))
+    v, d = p_var("v"), p_var("d")
+    val = p_var("value")
     for name in ("set", "__setstate__", "__init__"):
-        fn = need(name)
-        params = [a.arg for a in fn.args.args][1:]
-        obligations.append({"cell": "Length.%s assigns its argument to self.value unconditionally" % name})
-        if not params or not top_assign(fn, params[0]):
-            findings.append(dict(
-                rule="LEN-CELL", function="Length.%s" % name, file=REL, line=fn.lineno,
-                construct="self.value = %s not unconditional" % (params[0] if params else "?"),
-                detail="Length.%s does not store its argument in self.value on "
-                       "every path (a plain integer cell must)" % name, path=[]))
-    fn = need("change")
-    params = [a.arg for a in fn.args.args][1:]
-    ok = False
-    for st in fn.body:
-        if isinstance(st, ast.AugAssign) and isinstance(st.op, ast.Add) and \
-                pyfront.is_self_attr(st.target, "value") and \
-                isinstance(st.value, ast.Name) and params and st.value.id == params[0]:
-            ok = True
-        if isinstance(st, ast.Assign) and len(st.targets) == 1 and \
-                pyfront.is_self_attr(st.targets[0], "value") and params:
-            e = {"__v": p_var("v"), params[0]: p_var("d")}
-            v = st.value
-            class R(ast.NodeTransformer):
-                def visit_Attribute(self, n):
-                    if pyfront.is_self_attr(n, "value"):
-                        return ast.Name(id="__v")
-                    return n
-            if poly(R().visit(ast.parse(pyfront.unparse(v), mode="eval").body), e) == \
-                    {("v",): 1, ("d",): 1}:
-                ok = True
-    obligations.append({"cell": "Length.change adds its argument to self.value unconditionally"})
-    if not ok:
-        findings.append(dict(
-            rule="LEN-CELL", function="Length.change", file=REL, line=fn.lineno,
-            construct="self.value += delta not unconditional",
-            detail="Length.change does not add its argument to self.value on "
-                   "every path", path=[]))
-    for name in ("__call__", "__getstate__"):
-        fn = need(name)
-        rets = [n for n in ast.walk(fn) if isinstance(n, ast.Return)]
-        obligations.append({"cell": "Length.%s returns self.value" % name})
-        bad = [r for r in rets if not (r.value is not None and pyfront.is_self_attr(r.value, "value"))]
-        if not rets or bad:
-            findings.append(dict(
-                rule="LEN-CELL", function="Length.%s" % name, file=REL, line=fn.lineno,
-                construct="return is not self.value",
-                detail="Length.%s must return the stored value" % name, path=[]))
-    # no other attribute is written anywhere in the class
+        cell_rule(name, [v], v, None, "store its argument in self.value and nothing else")
+    cell_rule("change", [d], p_add(val, d), None, "add its argument to self.value")
+    cell_rule("__call__", [], val, val, "return self.value unchanged")
+    cell_rule("__getstate__", [], val, val, "return self.value unchanged")
+    # no other attribute is written anywhere in the class (also outside the
+    # methods interpreted above)
     for n in ast.walk(cls):
         tgt = None
         if isinstance(n, (ast.Assign, ast.AugAssign, ast.AnnAssign, ast.Delete)):
